@@ -20,7 +20,7 @@ from jsonargparse import ActionConfigFile, ArgumentParser
 from vf.gen import types as G
 
 MISSING = object()
-NAMES = ["alpha", "beta", "gamma", "delta", "eps", "zeta", "eta", "theta", "items", "keys", "name", "value", "n1", "x_y"]
+NAMES = ["alpha", "beta", "gamma", "delta", "eps", "zeta", "eta", "theta", "items", "keys", "name", "value", "n1", "x_y", "model", "model_ema", "alpha_2", "n"]
 GROUPS = ["grp", "opt", "model", "data", "g2"]
 
 
@@ -42,6 +42,12 @@ def gen_spec(rng, nargs=(1, 5), depth=3, profile="noany", nested=0.4, cfg=True, 
             d = G.conforming(rng, t, hostile=hostile / 2)
             if _usable_default(t, d):
                 default = normalised_default(t, d)
+        if t is G.CLASS_T and rng.random() < 0.5:
+            from jsonargparse import lazy_instance
+
+            from vf.fixtures import zoo
+
+            default = rng.choice([lambda: lazy_instance(zoo.SubA, a=rng.randrange(9), b="lz"), lambda: lazy_instance(zoo.SubB, c=0.75), lambda: lazy_instance(zoo.SubList, items=[1, 2])])()
         args.append(dict(name=name, t=t, default=default, required=False))
     spec = dict(args=args, cfg=cfg, mode=mode, env=env, prog="app", sub=None)
     if sub and rng.random() < sub:
@@ -121,7 +127,7 @@ def build(spec, exit_on_error=False, **parser_kw):
     for a in spec["args"]:
         akw = {"type": a["t"].hint}
         if a["default"] is not MISSING:
-            akw["default"] = copy.deepcopy(a["default"])
+            akw["default"] = a["default"] if type(a["default"]).__name__.startswith("LazyInstance") else copy.deepcopy(a["default"])
         if a.get("required"):
             akw["required"] = True
         if a.get("enable_path"):
